@@ -177,10 +177,17 @@ class Pseudo2NetCDF:
                 nvar[:] = pvar[...]
             else:
                 # the value netCDF masks on reading is the disk _FillValue
-                nvar[:] = pvar[...].filled(getattr(
+                fill = getattr(
                     nvar, '_FillValue', getattr(
                         nvar, 'fill_value', getattr(
-                            pvar, 'missing_value', -9999))))
+                            pvar, 'missing_value', None)))
+                if fill is None:
+                    # no value is declared as missing: netCDF4 writes the
+                    # default fill value of the type for masked cells,
+                    # which is what it masks on reading such a variable
+                    nvar[:] = pvar[...]
+                else:
+                    nvar[:] = pvar[...].filled(fill)
         else:
             nvar[:] = pvar[...]
 
